@@ -5,7 +5,7 @@
    without effect; and over ALL reachable states: a blocked call whose context is cancelled returns after
    at most four steps of its own waiter and itself, with a zero value and a non-nil error when no
    response had reached its waiter. *)
-From Verif Require Import Base Link LinkProofs LinkInv16 LinkInvB.
+From Verif Require Import Base Link LinkProofs LinkInv16 LinkInvB LinkInvT LinkProgress.
 
 Theorem cancel_frame :
   forall calls s c,
@@ -65,3 +65,14 @@ Theorem cancelled_call_returns :
                        v = zero /\ exists e0, e = Some e0).
 Proof. exact cancelled_call_returns_lemma. Qed.
 Print Assumptions cancelled_call_returns.
+
+(* the general statement: a started call whose own context is cancelled returns within six steps of
+   its own waiter and itself wherever it currently is *)
+Theorem cancelled_call_returns_from_anywhere :
+  forall calls s i st,
+    lreachable fixed calls s -> memN (c_ctx (nth i calls dflt_call)) (cancelled s) = true ->
+    tget (threads s) (TCall i) = Some st ->
+    exists cs s' v e, length cs <= 6 /\ own_steps i cs /\ lrun fixed calls s cs = Some s' /\
+                      tget (threads s') (TCall i) = Some (CReturned v e).
+Proof. exact cancelled_started_call_returns_lemma. Qed.
+Print Assumptions cancelled_call_returns_from_anywhere.
